@@ -31,6 +31,11 @@ def cases(tier, seed):
                 variants.append(({'A': None}, 'grad'))
                 if e != 'matmat':
                     variants.append(({'A': None, 'x': None}, 'grad_list'))
+            if d >= 2 and e in EXPRS[:3] + ['dot', 'norm']:
+                # core selections in the caller's order: decreasing, negative, repeated
+                variants.append(({'x': [d - 1, 0]}, 'grad'))
+                variants.append(({'x': [-1, 0]}, 'grad'))
+                variants.append(({'x': [d - 1, d - 1, 0]}, 'grad'))
             if e == 'matmat':
                 variants = [({'A': None}, 'grad')]
             for tr, api in variants:
